@@ -85,7 +85,7 @@ def one_call(kind: str, name: str) -> dict:
         d = decomp.decompile_case({"routines": c11.SETS[name], "infos": c11.INFO1})
         out = {"status": d["status"], "text": d["text"], "sm": d["sm"], "mutated": d["mutated"]}
     else:
-        c = drive.compile_text(c11.TEXTS[name])
+        c = drive.compile_text(c11.TEXTS[name], c11.path_of(name))
         out = {k: c[k] for k in ("status", "ops", "infos", "sm", "mro")}
     return out
 
